@@ -68,14 +68,14 @@ def run_case(triple, where):
             ignore = tuple(where.get('ignore') or ())
             exp = H.Expect(p, strategy, ignore)
             info['distinct'] = nbspace.canon(exp.L) != nbspace.canon(exp.R)
-            info['key'] = hash((nbspace.canon(exp.B), nbspace.canon(exp.L), nbspace.canon(exp.R), app, layout, strategy, fault_step, mode, with_out, ignore))
+            info['key'] = hash((nbspace.canon(exp.B), nbspace.canon(exp.L), nbspace.canon(exp.R), app, layout, strategy, fault_step, mode, with_out, ignore, where.get('log_level')))
             if not isinstance(exp.main, H.LibResult):
                 info['skipped'] = 'library merge raises' if exp.main is None else 'library result unserialisable'
                 return fails, info
             lib = exp.main
             conflicted = lib.conflicted
             info['conflicted'] = conflicted
-            argv = H.argv_for(app, layout, p, strategy, where.get('explicit', True), where.get('pathname', True), with_out, ignore)
+            argv = H.argv_for(app, layout, p, strategy, where.get('explicit', True), where.get('pathname', True), with_out, ignore, where.get('log_level'))
             outname = os.path.basename(p['out'])
             fired, exc, stdout, crashed = False, None, None, None
             damaged = bool(fault_step) and fault_step.split(':')[0] in ('missing', 'corrupt')
@@ -172,6 +172,9 @@ def run_case(triple, where):
         # the command installs its ignore options process-wide (as a command may): the next case starts from the defaults
         from nbdime.diffing import notebooks as nbd
         nbd.reset_notebook_differ()
+        if where.get('log_level'):
+            from nbdime.log import set_nbdime_log_level
+            set_nbdime_log_level(logging.INFO)
     return fails, info
 
 
@@ -193,6 +196,9 @@ def plan_for_triple(seed, n, ti, steps_mod):
                 'pre_out': rnd.random() < 0.6, 'pathname': rnd.random() < 0.5, 'explicit': rnd.random() < 0.7}
         out.append(dict(base, strategy=list(s1), fault=None))
         out.append(dict(base, strategy=list(s2), fault=None))
+        if layout in ('plain', 'samestat', 'null-base') and rnd.random() < 0.35:
+            # a verbose run (--log-level DEBUG): the result is still the library merge of the three files
+            out.append(dict(base, strategy=list(s1), fault=None, log_level='DEBUG'))
         if layout in ('plain', 'samestat') and rnd.random() < 0.5:
             # diff-ignore options on the command line: the library merge "for the same options" runs with them in force
             out.append(dict(base, strategy=list(s1), fault=None, ignore=rnd.choice([['-O'], ['-M'], ['-D'], ['-O', '-D'], ['-S'], ['-M', '-A', '-I']])))
@@ -336,7 +342,7 @@ def run_bounded(res):
         '(zero-byte), null-base (/dev/null), no-base-arg, del-local, del-remote, del-both (/dev/null placeholders)}, driver {plain, samestat, empty-base, '
         'null-base, del-remote}; pre-existing / absent --out file and presence of the pathname argument (%%P) alternate; per (triple, app): 2 strategy tables (9 fixed + random of the '
         '4x5x7x2 CLI flag combinations) without fault -- for half of the plain/samestat layouts a third run adds diff-ignore flags (-S/-O/-A/-M/-I/-D), the library merge then runs with '
-        'the same options in force --, plus ONE fault per run at each step in turn: each non-placeholder input file missing, cut off in the middle, or failing to be read (OSError EIO at '
+        'the same options in force, and for a third of the plain layouts a run with --log-level DEBUG (reference: the library merge at the default level) --, plus ONE fault per run at each step in turn: each non-placeholder input file missing, cut off in the middle, or failing to be read (OSError EIO at '
         'read_notebook / nbformat.read / open), merge_notebooks, 1st and 2nd diff_notebooks, decide_merge_with_diff, apply_decisions (MemoryError / KeyboardInterrupt / RuntimeError), '
         'nbformat.write before writing (ENOSPC), opening the output (ENOSPC), 1st and 2nd write() to it (ENOSPC after half the data), close (EIO), '
         'KeyboardInterrupt after the write; del-both: read of base, os.remove of the output. Real subprocesses (python -m nbdime.nbmergeapp / '
